@@ -31,6 +31,53 @@ def self_comparison_rule(F, r, module_prefixes, what):
 DUP_OK = {
     ("IndividualStorageFactory", "new_with_dedup"): "a GSOM node's elite population uses node_size both as capacity and as selection size",
 }
+# call sites where two arguments are deliberately passed crosswise to the parameters bearing their names
+SWAP_OK = {
+    ("Point::distance_to_segment", "dot_product"): "the segment is tested from both ends: dot_product(b, a, p) is the mirrored test",
+}
+
+
+def _plain_name(fn, a):
+    """debug name of the variable an argument is a plain copy / borrow of (no field projection)"""
+    cur = a
+    for _ in range(8):
+        if not mir.is_place(cur):
+            return None
+        if any(not (e == "*" or (isinstance(e, list) and e and e[0] == "deref")) for e in cur["p"]):
+            return None
+        nm = fn["names"].get(str(cur["l"]))
+        if nm:
+            return nm
+        ds = mir.defs(fn).get(cur["l"], [])
+        if len(ds) != 1 or ds[0][0] != "s" or ds[0][3]["r"]["k"] not in ("use", "ref"):
+            return None
+        cur = ds[0][3]["r"]["o"][0]
+    return None
+
+
+def swapped_argument_sites(F, fn, fid):
+    """(line, kind, text): a call to a workspace function where two same-typed arguments are variables named exactly like EACH OTHER's parameter
+    (f(from, to) called as f(to, from)) — an exact, name-declared contradiction; zero sites on the pinned tree apart from SWAP_OK"""
+    out = []
+    for bi, t in mir.calls(fn):
+        if t.get("x") or len(t["args"]) < 2:
+            continue
+        tg = t.get("res") or t["callee"]
+        cal = F.fns.get(tg)
+        if not cal:
+            continue
+        pn = [cal["names"].get(str(i + 1)) for i in range(cal["argc"])]
+        an = [_plain_name(fn, a) for a in t["args"]]
+        tys = t.get("argtys", [])
+        for i in range(min(len(an), len(pn))):
+            for j in range(i + 1, min(len(an), len(pn))):
+                if an[i] and an[j] and pn[i] and pn[j] and pn[i] != pn[j] and an[i] == pn[j] and an[j] == pn[i] and i < len(tys) and j < len(tys) and tys[i] == tys[j]:
+                    if any(k[0] in fid and tg.endswith(k[1]) for k in SWAP_OK):
+                        continue
+                    out.append((t["ln"], "swap", f"`{tg.split('::')[-1]}` takes ({pn[i]}, {pn[j]}) at positions #{i + 1}, #{j + 1} but receives the variables ({an[i]}, {an[j]})"))
+    return out
+
+
 DEGENERATE_BIN = ("Sub", "Div", "Rem", "BitXor", "SubWithOverflow", "SubUnchecked")
 
 
@@ -85,9 +132,9 @@ def lints_rule(F, r, module_prefixes, what):
         for ln, op, e in mir.self_comparisons(fn, imp):
             r.fail(f"{util.short_fn(fid)}: {op}", f"both operands of this `{op}` are the same expression ({_show(e)}): the comparison is constant, so the {what} it implements "
                    "is disabled", F.loc(fid, ln))
-        for ln, kind, txt in degenerate_sites(F, fn, fid, imp):
+        for ln, kind, txt in degenerate_sites(F, fn, fid, imp) + swapped_argument_sites(F, fn, fid):
             r.fail(f"{util.short_fn(fid)}: {kind}@{txt.split('`')[1]}", txt + f": a copy-paste / wrong-variable slip in the {what}", F.loc(fid, ln))
-    r.ok("sites scanned", f"{ncmp} comparisons and {ncall} multi-argument calls in {nfn} bodies: no value compared with, subtracted from, divided by or passed alongside itself")
+    r.ok("sites scanned", f"{ncmp} comparisons and {ncall} multi-argument calls in {nfn} bodies: no value compared with, subtracted from, divided by or passed alongside itself; no two arguments passed crosswise to the parameters bearing their names")
     return ncmp + ncall
 
 
